@@ -316,6 +316,34 @@ def search(ck, tier, seed):
             ck.finding("normalisation:gaussian_kde_log_eval", "D=%d integrates to %r" % (D, tot), {"search": "kde", "D": D})
 
 
+def kde_many_samples(ck, seed):
+    """the kernel density evaluator with more samples than a small-case shortcut would see, near the origin and far from it
+    (single precision, as documented): still a normalised density, and equal to the float64 evaluation of the same formula"""
+    import numpy as np
+    from nflows.utils import torchutils
+    for N, centre in ((6, 0.0), (40, 0.0), (300, 0.0), (40, 3000.0), (300, 3000.0), (500, -8000.0)):
+        g = tgen(seed, "kde-many", N, centre)
+        samples = (centre + torch.randn(N, 1, generator=g, dtype=torch.float64)).float()
+        xs = centre + np.linspace(-9.0, 9.0, 3601)
+        q = torch.tensor(xs, dtype=torch.float64).float()[:, None, None]
+        ck.case(("kde-many", N, centre), nontrivial=True)
+        case = {"search": "kde-many-samples", "N": N, "centre": centre, "seed": seed}
+        r = attempt(torchutils.gaussian_kde_log_eval, samples, q)
+        if r[0] != "ok":
+            ck.finding("normalisation:gaussian_kde_log_eval:raises", "%d samples around %g: %s %s" % (N, centre, r[1], r[2]), case)
+            continue
+        lp = r[1].double().reshape(-1).numpy()
+        xs32 = q.reshape(-1).double().numpy()
+        tot = float(np.trapezoid(np.exp(lp), xs32))
+        std = N ** (-1 / 5)
+        ref = torch.logsumexp(-0.5 * ((q.double().reshape(-1, 1) - samples.double().reshape(1, -1)) / std) ** 2, dim=-1) \
+            - math.log(N) - 0.5 * math.log(2 * math.pi) - math.log(std)
+        err = float((torch.tensor(lp) - ref)[ref > -20].abs().max())
+        if abs(tot - 1) > 2e-3 or err > 5e-2:
+            ck.finding("normalisation:gaussian_kde_log_eval",
+                       "%d float32 samples around %g: integrates to %.4f, log-density differs from the float64 formula by %.3g" % (N, centre, tot, err), case)
+
+
 def run(tier, seed):
     ck = Check("C05", tier, seed, areas=[], gen_groups=["Dist", "Nonlin", "DistBase"])
     ck.rule = ("Bernoulli: exact summation over {0,1}^D (D up to 8, 1-D and 2-D event shapes); standard / diagonal / conditional "
@@ -327,6 +355,7 @@ def run(tier, seed):
     ck.build()
     ck.sample({"generated": "Gen/Dist.v: sn_neg_energy_term, sn_log_z, cdn_norm_input, bern_log_prob_term, flow_log_prob"})
     search(ck, tier, seed)
+    kde_many_samples(ck, seed)
     return ck.finish()
 
 
